@@ -26,6 +26,9 @@ type c08case struct {
 	passHost bool
 	group    string
 	absolute bool // the request line carries the absolute form (http://host/path?query), as a client talking to a proxy sends it
+	// the backend URL the caller chose carries, beside scheme and host, ANOTHER SPELLING OF THE CLIENT'S OWN PATH
+	// (every byte percent-escaped) and a query of its own: only scheme and host may be taken from it
+	aliasBackend bool
 }
 
 func (c c08case) String() string {
@@ -33,7 +36,23 @@ func (c c08case) String() string {
 	if c.absolute {
 		t = "http://" + c.host + t
 	}
+	if c.aliasBackend {
+		t += " (backend URL spells the same path with every byte escaped)"
+	}
 	return fmt.Sprintf("GET %s host=%q peer=%s tls=%v passHost=%v headers=%v", t, c.host, c.peer, c.tls, c.passHost, c.headers)
+}
+
+// escapedSpelling: every byte of the decoded path but '/' as %XX - a valid encoding of the same path.
+func escapedSpelling(path string) string {
+	var sb strings.Builder
+	for i := 0; i < len(path); i++ {
+		if path[i] == '/' {
+			sb.WriteByte('/')
+			continue
+		}
+		fmt.Fprintf(&sb, "%%%02X", path[i])
+	}
+	return sb.String()
 }
 
 var hopByHop = map[string]bool{"Connection": true, "Proxy-Connection": true, "Keep-Alive": true, "Proxy-Authenticate": true,
@@ -105,9 +124,10 @@ func c08cases(tier string) []c08case {
 	ts := targets()
 	for i, t := range ts {
 		for _, ph := range []bool{false, true} {
-			out = append(out, c08case{t, [][2]string{{"Accept", "*/*"}}, "front.example", "1.2.3.4:5", false, ph, "targets", false})
+			out = append(out, c08case{t, [][2]string{{"Accept", "*/*"}}, "front.example", "1.2.3.4:5", false, ph, "targets", false, false})
+			out = append(out, c08case{t, [][2]string{{"Accept", "*/*"}}, "front.example", "1.2.3.4:5", false, ph, "targets", false, true})
 			if i%7 == 3 && strings.HasPrefix(t, "/") && !strings.HasPrefix(t, "//") {
-				out = append(out, c08case{t, [][2]string{{"Accept", "*/*"}}, "public.example", "1.2.3.4:5", false, ph, "targets", true})
+				out = append(out, c08case{t, [][2]string{{"Accept", "*/*"}}, "public.example", "1.2.3.4:5", false, ph, "targets", true, false})
 			}
 		}
 	}
@@ -123,7 +143,7 @@ func c08cases(tier string) []c08case {
 							if tier != "thorough" && hi >= 12 && (len(t)+len(h)+len(p))%3 != hi%3 {
 								continue // quick: a third of the (target,host,peer) combinations per forwarding-header case
 							}
-							out = append(out, c08case{t, hs, h, p, tl, ph, "headers", false})
+							out = append(out, c08case{t, hs, h, p, tl, ph, "headers", false, false})
 						}
 					}
 				}
@@ -138,6 +158,7 @@ type world struct {
 	preambleFailure  string
 	preambleRequests int
 	backend          *Backend
+	aliasBackend     bool
 	proxies          [2]http.Handler
 	hostname         string
 }
@@ -152,7 +173,11 @@ func newWorld() *world {
 		f.Transport = &gateTransport{inner: &http.Transport{MaxIdleConns: 1, IdleConnTimeout: time.Second}, w: w}
 		bu := &url.URL{Scheme: "http", Host: w.backend.Addr}
 		w.proxies[i] = http.HandlerFunc(func(rw http.ResponseWriter, r *http.Request) {
-			r.URL = &url.URL{Scheme: bu.Scheme, Host: bu.Host, Path: "/backend-path-must-not-be-used"}
+			if w.aliasBackend {
+				r.URL = &url.URL{Scheme: bu.Scheme, Host: bu.Host, Path: r.URL.Path, RawPath: escapedSpelling(r.URL.Path), RawQuery: "backend-query=must-not-be-used"}
+			} else {
+				r.URL = &url.URL{Scheme: bu.Scheme, Host: bu.Host, Path: "/backend-path-must-not-be-used"}
+			}
 			f.ServeHTTP(rw, r)
 		})
 	}
@@ -319,8 +344,13 @@ func runC08(w *world, c c08case, rep *lib.Report) {
 	if c.passHost {
 		pi = 1
 	}
+	w.aliasBackend = c.aliasBackend
 	rec := lib.Serve(w.proxies[pi], req)
+	w.aliasBackend = false
 	rep.Evaluations++
+	if c.aliasBackend {
+		rep.Count("targets_with_the_backend_url_spelling_the_same_path")
+	}
 	what := func() map[string]any {
 		return map[string]any{"engine": "enum", "part": "c08", "case": c.String()}
 	}
@@ -512,7 +542,7 @@ func RunC08(tier string, sh lib.Shard, rep *lib.Report) {
 	rep.Bounds["header_cases"] = len(headerCases())
 	rep.Rule = "exhaustive: request targets = all paths of <= 3 segments over 11 segment forms x 6 query forms (x pass-host), and header cases (hop-by-hop alone / named in Connection, end-to-end multi-valued, every subset of upstream-supplied forwarding headers, Connection naming each of them) x 3 targets x Host {plain, with port, IPv6 literal} x peer {IPv4, IPv6, IPv6 zone} x TLS x pass-host; request parsed by http.ReadRequest, real forward.New proxy (two long-lived forwarders that first serve Host-less, empty-Host and asterisk-form requests, then every case; plus two exchanges overlapping inside the transport), raw TCP backend recording the exact bytes; non-trivial = targets with escapes + header cases naming headers in Connection"
 	rep.Assume("net/http's transport may add Accept-Encoding/User-Agent handling of its own; only headers the client sent and the forwarding headers are compared", "Upgrade (protocol switching) is outside the alphabet")
-	rep.Require("targets_with_escapes", "cases_with_connection_named_headers", "hop_by_hop_headers_checked", "end_to_end_headers_checked", "forwarding_header_sets_checked")
+	rep.Require("targets_with_escapes", "targets_with_the_backend_url_spelling_the_same_path", "cases_with_connection_named_headers", "hop_by_hop_headers_checked", "end_to_end_headers_checked", "forwarding_header_sets_checked")
 	w := newWorld()
 	defer w.backend.Close()
 	rep.Add("preamble_requests_without_host_or_in_asterisk_form", w.preambleRequests)
